@@ -231,7 +231,10 @@ func (f *FibStrategyHashTable) FindNextHopsEnc(name enc.Name) []*FibNextHopEntry
 	for pfx := len(entry.name); pfx >= 0; pfx-- {
 		val, ok := f.realTable[prefixHash[pfx]]
 		if ok && len(val.nexthops) > 0 {
-			return val.nexthops
+			// Return a copy: the table's own list is modified by later updates
+			nexthops := make([]*FibNextHopEntry, len(val.nexthops))
+			copy(nexthops, val.nexthops)
+			return nexthops
 		}
 	}
 
@@ -270,10 +273,11 @@ func (f *FibStrategyHashTable) InsertNextHopEnc(name enc.Name, nexthop uint64, c
 
 	realEntry := f.insertEntryEnc(name)
 
-	for _, existingNextHop := range realEntry.nexthops {
+	for i, existingNextHop := range realEntry.nexthops {
 		if existingNextHop.Nexthop == nexthop {
-			// Update existing hop
-			existingNextHop.Cost = cost
+			// Update existing hop. Lookup results share the nexthop records,
+			// so replace instead of updating in place
+			realEntry.nexthops[i] = &FibNextHopEntry{Nexthop: nexthop, Cost: cost}
 			return
 		}
 	}
